@@ -270,7 +270,8 @@ pub fn finish(
 ) -> Outcome {
     let id = &cfg.prop;
     let known: Vec<Known> = load_known(&cfg.verif_dir).into_iter().filter(|k| &k.property == id).collect();
-    let replay_dir = cfg.verif_dir.join("replays").join(id);
+    let out_dir = std::env::var("VERIF_OUT_DIR").map(PathBuf::from).unwrap_or_else(|_| cfg.verif_dir.clone());
+    let replay_dir = out_dir.join("replays").join(id);
     let _ = std::fs::create_dir_all(&replay_dir);
 
     let mut lines: Vec<String> = vec![];
@@ -353,7 +354,7 @@ pub fn finish(
         "violations": new_violations,
         "verdict": if new_violations>0 {"violated"} else if !inconclusive.is_empty() {"inconclusive"} else {"held on what was observed"},
     });
-    let evdir = cfg.verif_dir.join("evidence");
+    let evdir = out_dir.join("evidence");
     let _ = std::fs::create_dir_all(&evdir);
     let _ = std::fs::write(evdir.join(format!("{}.json", id)), serde_json::to_string_pretty(&ev).unwrap());
 
